@@ -2,6 +2,8 @@ package main
 
 import (
 	"fmt"
+	"go/token"
+	"go/types"
 	"strings"
 
 	"golang.org/x/tools/go/ssa"
@@ -54,7 +56,7 @@ func ruleC05RunTask(cx *Ctx) {
 	}
 	fn := r.fn
 	name := funcName(fn)
-	t := "param:" + pname(fn.Params[1])
+	t := "param:" + pname(bparam(fn, 1))
 	n, old := accessorTerm(nodeF, t), accessorTerm(oldF, t)
 	if n == "" || old == "" || n == old {
 		cx.R.Undecided(rule, name, "task accessors", cx.P.Pos(fn.Pos()), "task.node / task.oldNode are no longer plain field accessors")
@@ -119,7 +121,7 @@ func ruleC05RunTask(cx *Ctx) {
 					return false
 				}
 				cl := r.ps.closures[e.Args[idx]]
-				if cl == nil || cl.bound == nil || origin(cl.bound) != origin(evict) || cl.recv != "param:"+pname(fn.Params[0]) {
+				if cl == nil || cl.bound == nil || origin(cl.bound) != origin(evict) || cl.recv != "param:"+pname(bparam(fn, 0)) {
 					return false
 				}
 			}
@@ -255,4 +257,162 @@ func structNameOfAddr(v ssa.Value) string {
 	}
 	t := fa.X.Type()
 	return namedTypeName(t)
+}
+
+// ruleC05LockRead: the intrusive list state is also *read* only under the eviction lock.
+func ruleC05LockRead(cx *Ctx) {
+	const rule = "C05.lockread"
+	cx.R.Rule(rule, 6, "deque head/tail/len and the nodes' list links are read only with the eviction lock held, or inside the lazily evaluated iterator closures returned by Linked.All / Linked.Backward (whose consumption under the lock, after maintenance, C19.source decides): an iterator constructor that samples list state when it is built would observe the state before the lock was taken")
+	lc := lockContext(cx)
+	if lc == nil {
+		cx.R.Undecided(rule, "*", "lock context", "-", "eviction-lock context analysis unavailable")
+		return
+	}
+	_, st := cx.P.Struct("internal/deque", "Linked")
+	if st == nil {
+		cx.R.Undecided(rule, "Linked", "anchor", "-", "deque.Linked does not resolve")
+		return
+	}
+	linkGetters := map[string]bool{"Next": true, "Prev": true, "NextExp": true, "PrevExp": true}
+	exempt := map[string]string{"deque.NewLinked": "object not yet published", "expiration.NewVariable": "object not yet published"}
+	// lazily evaluated iterator closures: closures returned by a method of Linked whose result type is a function
+	lazy := map[*ssa.Function]bool{}
+	for _, fn := range cx.P.FuncsOfPkg("internal/deque") {
+		if fn.Parent() == nil {
+			continue
+		}
+		p := fn.Parent()
+		if p.Parent() != nil || p.Signature.Results().Len() != 1 {
+			continue
+		}
+		if _, isFn := p.Signature.Results().At(0).Type().Underlying().(*types.Signature); !isFn {
+			continue
+		}
+		returned := false
+		allInstrs(p, func(in ssa.Instruction) {
+			if r, ok := in.(*ssa.Return); ok && len(r.Results) == 1 && closureOf(r.Results[0]) == fn {
+				returned = true
+			}
+		})
+		if returned {
+			lazy[fn] = true
+		}
+	}
+	// the lazily evaluated iterators are built only by the ordered iterator of the cache, which C19.source decides
+	eo := cx.P.Func("", "cache", "evictionOrder")
+	for cl := range lazy {
+		ctor := cl.Parent()
+		for _, f := range cx.P.ModuleFuncs() {
+			allInstrs(f, func(in ssa.Instruction) {
+				if isCallTo(in, ctor) {
+					cx.R.Check(eo != nil && origin(outermost(f)) == origin(eo), rule, funcName(f), "iterator "+cname(ctor)+" built by the ordered iterator", cx.P.where(in), "deque iterators are built only inside cache.evictionOrder, whose closure takes the lock and runs maintenance before it enumerates")
+				}
+			})
+		}
+	}
+	// held at `in`, counting call sites inside the lazy iterator closures as held (their consumption is C19.source's part)
+	var heldOrLazy func(in ssa.Instruction, depth int) bool
+	heldOrLazy = func(in ssa.Instruction, depth int) bool {
+		if lc.heldAtCtx(in) {
+			return true
+		}
+		f := in.Parent()
+		for g := f; g != nil; g = g.Parent() {
+			if lazy[g] {
+				return true
+			}
+		}
+		if depth > 4 || f.Parent() != nil {
+			return false
+		}
+		// a helper without lock operations of its own is held wherever all its callers are
+		lockFree := true
+		allInstrs(f, func(x ssa.Instruction) {
+			if mutexOp(x, lc.mu, "Lock") || mutexOp(x, lc.mu, "Unlock") || mutexOp(x, lc.mu, "TryLock") {
+				lockFree = false
+			}
+		})
+		sites := lc.sites[origin(f)]
+		if !lockFree || len(sites) == 0 {
+			return false
+		}
+		for _, s := range sites {
+			if !heldOrLazy(s, depth+1) {
+				return false
+			}
+		}
+		return true
+	}
+	for _, fn := range cx.P.ModuleFuncs() {
+		if fn.Pkg != nil && strings.HasSuffix(fn.Pkg.Pkg.Path(), nodePkg) {
+			continue
+		}
+		name := funcName(fn)
+		n := 0
+		allInstrs(fn, func(in ssa.Instruction) {
+			what := ""
+			switch x := in.(type) {
+			case *ssa.UnOp:
+				if x.Op == token.MUL {
+					if f := fieldOf(x.X); f != nil && structNameOfAddr(x.X) == "Linked" {
+						switch fname(f) {
+						case "head", "tail", "len":
+							what = "read of Linked." + fname(f)
+						}
+					}
+				}
+			case ssa.CallInstruction:
+				if m := invokeName(in); linkGetters[m] && isNodeIface(namedTypeName(callCommon(in).Value.Type())) {
+					what = "node." + m
+				}
+			}
+			if what == "" {
+				return
+			}
+			n++
+			key := fmt.Sprintf("%s #%d", what, n)
+			if why, ok := exempt[funcName(outermost(fn))]; ok {
+				cx.R.OK(rule, name, key, cx.P.where(in), "exempt: "+why)
+				return
+			}
+			// inside (or below) a lazily evaluated iterator closure
+			for f := fn; f != nil; f = f.Parent() {
+				if lazy[f] {
+					cx.R.OK(rule, name, key, cx.P.where(in), "inside the lazily evaluated iterator closure (consumption decided by C19.source)")
+					return
+				}
+			}
+			if len(lc.sites[origin(outermost(fn))]) == 0 && fn.Pkg != nil && strings.Contains(fn.Pkg.Pkg.Path(), "/internal/") && !addressTaken(cx, outermost(fn)) {
+				cx.R.OK(rule, name, key, cx.P.where(in), "unreachable: a function of an internal package that nothing in the module calls")
+				return
+			}
+			cx.R.Check(heldOrLazy(in, 0), rule, name, key, cx.P.where(in), what+" under the eviction lock: "+lc.explain(in))
+		})
+	}
+}
+
+// addressTaken: the function is used as a value somewhere in the module (method value, function value).
+func addressTaken(cx *Ctx, fn *ssa.Function) bool {
+	taken := false
+	for _, f := range cx.P.ModuleFuncs() {
+		allInstrs(f, func(in ssa.Instruction) {
+			for _, op := range in.Operands(nil) {
+				if op == nil || *op == nil {
+					continue
+				}
+				if g, ok := (*op).(*ssa.Function); ok && origin(g) == origin(fn) {
+					if cc := callCommon(in); cc != nil && cc.Value == *op {
+						continue
+					}
+					taken = true
+				}
+				if mc, ok := (*op).(*ssa.MakeClosure); ok {
+					if bm := boundMethod(mc); bm != nil && origin(bm) == origin(fn) {
+						taken = true
+					}
+				}
+			}
+		})
+	}
+	return taken
 }
